@@ -149,7 +149,8 @@ func prepareArg(value reflect.Value, argType reflect.Type) (reflect.Value, error
 func index(item reflect.Value, indices ...reflect.Value) (reflect.Value, error) {
 	v := indirectInterface(item)
 	if !v.IsValid() {
-		return reflect.Value{}, fmt.Errorf("index of untyped nil")
+		// an undefined variable or absent value: indexing it yields Nil, like a missing member does
+		return reflect.ValueOf(Nil{}), nil
 	}
 
 	if obj, ok := item.Interface().(*Array); ok {
